@@ -191,6 +191,10 @@ func ParseScalar(t *meta.Type, s string) val.Value {
 				return e
 			}
 		}
+	case val.FmtLeafRef:
+		if r := t.Resolve(); r != nil && r != t {
+			return ParseScalar(r, s)
+		}
 	case val.FmtIdentityRef:
 		return val.IdentRef{Label: s}
 	case val.FmtBinary:
